@@ -64,8 +64,10 @@ Unquote(s) ==
          ELSE SubSeq(s, 1, i) \o Unquote(SubSeq(s, i + 1, Len(s)))
 
 \* protocols/base.py slashnormalize
+RECURSIVE RStripSlash(_)
+RStripSlash(s) == IF Len(s) > 0 /\ s[Len(s)] = "/" THEN RStripSlash(SubSeq(s, 1, Len(s) - 1)) ELSE s
 SlashNormalize(s) ==
-    LET a == IF Len(s) > 0 /\ s[Len(s)] = "/" THEN SubSeq(s, 1, Len(s) - 1) ELSE s
+    LET a == RStripSlash(s)           \* selector.rstrip("/") since fix 5eb47a4 (one slash only before)
     IN IF Len(a) = 0 \/ a[1] # "/" THEN <<"/">> \o a ELSE a
 
 LeadSlash(s) == IF Len(s) > 0 /\ s[1] = "/" THEN s ELSE <<"/">> \o s
@@ -140,8 +142,6 @@ VSplit(s) ==
     IN IF i = 0 THEN [has |-> FALSE, real |-> s, args |-> <<>>]
        ELSE [has |-> TRUE, real |-> SubSeq(s, 1, i - 1), args |-> SubSeq(s, i + 1, Len(s))]
 
-RECURSIVE RStripSlash(_)
-RStripSlash(s) == IF Len(s) > 0 /\ s[Len(s)] = "/" THEN RStripSlash(SubSeq(s, 1, Len(s) - 1)) ELSE s
 \* os.path.split(p)[0]
 SplitHead(p) ==
     LET h == SubSeq(p, 1, LastChar(p, "/"))
